@@ -144,29 +144,33 @@ async def run_stack(sc, sim, flavoured, log, res):
         fl = e["flavour"] if flavoured else "def"
         is_cb = e["method"] == "callback"
 
-        def plain(*args):
-            return logic(e, None if is_cb else args[1], args if is_cb else ())
+        def seen(args, kw):
+            # what a callback is handed: its positional and keyword arguments (an exit: nothing to record here)
+            return (args, tuple(sorted(kw.items()))) if is_cb else ()
 
-        async def coro(*args):
+        def plain(*args, **kw):
+            return logic(e, None if is_cb else args[1], seen(args, kw))
+
+        async def coro(*args, **kw):
             for _ in range(e["susp"]):
                 await sim.suspend(PAUSE, None, "exit")
-            return logic(e, None if is_cb else args[1], args if is_cb else ())
+            return logic(e, None if is_cb else args[1], seen(args, kw))
 
         class Obj:
-            def __call__(self, *args):
-                return coro(*args)
+            def __call__(self, /, *args, **kw):
+                return coro(*args, **kw)
 
         class ObjAw:
-            def __call__(self, *args):
-                return _HandAw(sim, e["susp"], lambda: logic(e, None if is_cb else args[1], args if is_cb else ()))
+            def __call__(self, /, *args, **kw):
+                return _HandAw(sim, e["susp"], lambda: logic(e, None if is_cb else args[1], seen(args, kw)))
 
         if fl == "def":
             return plain
         if fl == "async":
             return coro
         if fl == "partial_async":
-            async def coro2(_marker, *args):
-                return await coro(*args)
+            async def coro2(_marker, *args, **kw):
+                return await coro(*args, **kw)
             return functools.partial(coro2, None)
         if fl == "obj_coro":
             return Obj()
@@ -181,7 +185,10 @@ async def run_stack(sc, sim, flavoured, log, res):
                 if e["method"] == "push":
                     back = stack.push(fn)
                 else:
-                    back = stack.callback(fn, e["name"], 7)
+                    if e["susp"] % 2:
+                        back = stack.callback(fn, e["name"], 7, flag=e["name"], mode=e["susp"])
+                    else:
+                        back = stack.callback(fn, flag=e["name"])  # keyword arguments only
                 if back is not fn:
                     res["type_ok"] = False
             log.append(("body",))
